@@ -185,7 +185,8 @@ def generate_contents(filepath, compressor="bz2", parallelize=True):
     try:
         tar_handle = tarfile.TarFile(name=filepath, fileobj=handle, mode="r")
     except tarfile.ReadError as e:
-        if not e.message.endswith("empty header"):
+        # zero length archive: "empty file" (py3), "empty header" (older tarfile versions)
+        if not str(e).endswith(("empty file", "empty header")):
             raise
         tar_handle = []
     return convert_archive(tar_handle)
